@@ -110,8 +110,48 @@ def child_main():
     from pydra.engine.hooks import TaskHooks
 
     home = os.getcwd()
+    if cfg.get("thread_subs"):
+        # the submitters are THREADS of this interpreter: each its own Submitter / Job, one report list per thread
+        import threading
+        reports = [{"submissions": []} for _ in cfg["thread_subs"]]
+        lock = threading.Lock()
+
+        def body(k):
+            with lock:
+                tids = json.load(open(cfg["tids"])) if os.path.exists(cfg["tids"]) else {}
+                tids["T%d" % k] = threading.get_ident()
+                with open(cfg["tids"] + ".tmp", "w") as f:
+                    json.dump(tids, f)
+                os.replace(cfg["tids"] + ".tmp", cfg["tids"])
+            _submit_all(cfg, cfg["thread_subs"][k], reports[k], home, threaded=True,
+                        flush=lambda: _flush(cfg, {"threads": reports}, lock))
+
+        ts = [threading.Thread(target=body, args=(k,), name="T%d" % k) for k in range(len(cfg["thread_subs"]))]
+        [t.start() for t in ts]
+        [t.join() for t in ts]
+        return
     report = {"submissions": []}
-    for sub_i, sc in enumerate(cfg["submissions"]):
+    _submit_all(cfg, cfg["submissions"], report, home, threaded=False, flush=lambda: _flush(cfg, report, None))
+
+
+def _flush(cfg, report, lock):
+    if lock is not None:
+        lock.acquire()
+    try:
+        with open(cfg["report"] + ".tmp", "w") as f:
+            json.dump(report, f)
+        os.replace(cfg["report"] + ".tmp", cfg["report"])
+    finally:
+        if lock is not None:
+            lock.release()
+
+
+def _submit_all(cfg, submissions, report, home, threaded, flush):
+    from pydra.utils.verif_hooks import checkpoint
+    from pydra.engine.submitter import Submitter
+    from pydra.engine.hooks import TaskHooks
+
+    for sub_i, sc in enumerate(submissions):
         task = build_task(sc)
         hooks = None
         if sc.get("hook_log"):
@@ -134,25 +174,30 @@ def child_main():
         obs["cwd"] = "home" if cwd == home else ("indir" if os.path.dirname(cwd) == os.path.realpath(cfg["cache_root"])
                                                  or os.path.dirname(cwd) == cfg["cache_root"] else cwd)
         obs["cwd_name"] = os.path.basename(cwd)
+        if threaded:
+            obs["cwd"] = "home"          # the working directory belongs to the process, not to a thread: not observed
         report["submissions"].append(obs)
-        with open(cfg["report"], "w") as f:
-            json.dump(report, f)
-        if sc.get("restore_cwd", True):
+        flush()
+        if sc.get("restore_cwd", True) and not threaded:
             os.chdir(home)
 
 
 # ------------------------------------------------------------------ parent side
 class Child:
-    def __init__(self, idx, workdir, cache_root, submissions, rules, trace, repo=None, home=None, track=False):
+    def __init__(self, idx, workdir, cache_root, submissions, rules, trace, repo=None, home=None, track=False,
+                 thread_subs=None):
         self.idx = idx
         self.kids = set()
+        self.tids_path = os.path.join(workdir, "tids%d.json" % idx)
+        self.n_threads = len(thread_subs) if thread_subs else 0
         self.cfg_path = os.path.join(workdir, "cfg%d.json" % idx)
         self.plan_path = os.path.join(workdir, "plan%d.json" % idx)
         self.report_path = os.path.join(workdir, "report%d.json" % idx)
         self.home = home or os.path.join(workdir, "home%d" % idx)
         os.makedirs(self.home, exist_ok=True)
         with open(self.cfg_path, "w") as f:
-            json.dump({"cache_root": cache_root, "submissions": submissions, "report": self.report_path}, f)
+            json.dump({"cache_root": cache_root, "submissions": submissions, "report": self.report_path,
+                       "thread_subs": thread_subs, "tids": self.tids_path}, f)
         with open(self.plan_path, "w") as f:
             json.dump({"rules": rules}, f)
         env = dict(os.environ)
@@ -210,12 +255,44 @@ class Child:
         except (OSError, ProcessLookupError):
             pass
 
-    def report(self):
+    def report(self, thread=None):
         try:
             with open(self.report_path) as f:
-                return json.load(f)["submissions"]
-        except (OSError, ValueError):
+                d = json.load(f)
+            return d["submissions"] if thread is None else d["threads"][thread]["submissions"]
+        except (OSError, ValueError, KeyError, IndexError):
             return []
+
+    def tids(self):
+        try:
+            with open(self.tids_path) as f:
+                return json.load(f)
+        except (OSError, ValueError):
+            return {}
+
+
+class Actor:
+    """One submitter as the gate and the model see it: a child process, or one thread (T<k>) of a child."""
+
+    def __init__(self, child, idx, thread=None):
+        self.child, self.idx, self.thread = child, idx, thread
+        self.pid = child.pid
+
+    def poll(self):
+        return self.child.poll()
+
+    def tid(self):
+        return None if self.thread is None else self.child.tids().get("T%d" % self.thread)
+
+    def owns(self, pid, tid):
+        if pid != self.child.pid:
+            return False
+        return self.thread is None or tid == self.tid()
+
+    def gate_file(self, gate_dir, n):
+        if self.thread is None:
+            return os.path.join(gate_dir, "c%d.%d" % (self.child.idx, n))
+        return os.path.join(gate_dir, "c%d.T%d.%d" % (self.child.idx, self.thread, n))
 
 
 def read_trace(path):
@@ -233,10 +310,11 @@ def read_trace(path):
     return out
 
 
-def gate_rule(gate_dir, idx, timeout=120):
-    """Plan rule: park at every checkpoint until <gate_dir>/c<idx>.<n> exists."""
-    return {"label": "*", "nth": None, "action": "wait", "file": os.path.join(gate_dir, "c%d.{n}" % idx),
-            "timeout": timeout}
+def gate_rule(gate_dir, idx, timeout=120, threaded=False):
+    """Plan rule: park at every checkpoint until <gate_dir>/c<idx>.<n> (threads: c<idx>.<thread name>.<n>) exists;
+    n counts the checkpoints of the thread that hits it."""
+    name = "c%d.{thread}.{n}" % idx if threaded else "c%d.{n}" % idx
+    return {"label": "*", "nth": None, "action": "wait", "file": os.path.join(gate_dir, name), "timeout": timeout}
 
 
 class Gate:
@@ -245,16 +323,17 @@ class Gate:
     def __init__(self, gate_dir, trace, children):
         self.gate_dir = gate_dir
         self.trace = trace
-        self.children = children
-        self.released = {c.idx: 0 for c in children}
+        self.children = [c if isinstance(c, Actor) else Actor(c, c.idx) for c in children]
+        self.released = {c.idx: 0 for c in self.children}
         os.makedirs(gate_dir, exist_ok=True)
 
     def lines(self):
         cnt = {c.idx: 0 for c in self.children}
-        bypid = {c.pid: c.idx for c in self.children}
-        for pid, _tid, _label, _key in read_trace(self.trace):
-            if pid in bypid:
-                cnt[bypid[pid]] += 1
+        for pid, tid, _label, _key in read_trace(self.trace):
+            for c in self.children:
+                if c.owns(pid, tid):
+                    cnt[c.idx] += 1
+                    break
         return cnt
 
     def drive(self, choose, deadline):
@@ -283,7 +362,8 @@ class Gate:
             if parked:
                 i, settle = pick if isinstance(pick, tuple) else (pick, 0)
                 n = self.released[i] + 1
-                open(os.path.join(self.gate_dir, "c%d.%d" % (i, n)), "w").close()
+                ch = [c for c in self.children if c.idx == i][0]
+                open(ch.gate_file(self.gate_dir, n), "w").close()
                 self.released[i] = n
                 # give the released child a moment to reach its next checkpoint (or to block on the lock);
                 # `settle` seconds when the schedule needs it to get as far as it can before anybody else moves
@@ -495,9 +575,12 @@ def run_scenario(sc, workroot=None):
         hang = False
         runs_stage = []
         runs_stage_by_x = []
+        thread_pid = {}
+        thread_actors = []
         for st_no, stage in enumerate(sc["stages"]):
             chs = []
             gate_dir = os.path.join(wd, "gate%d" % st_no)
+            actors = []
             for cd in stage["children"]:
                 subs = []
                 for sd in cd.get("subs", [{}]):
@@ -511,11 +594,26 @@ def run_scenario(sc, workroot=None):
                         s["hook_chdir"] = elsewhere
                     subs.append(s)
                 rules = list(cd.get("rules", []))
+                nthr = int(cd.get("threads", 0))
                 if stage.get("gate"):
-                    rules.append(gate_rule(gate_dir, idx, timeout=timeout))
+                    rules.append(gate_rule(gate_dir, idx, timeout=timeout, threaded=bool(nthr)))
+                if nthr:
+                    # the submitters are `nthr` threads of ONE interpreter: one model process per thread
+                    tsubs = []
+                    for k in range(nthr):
+                        tsubs.append([dict(x, hook_log=os.path.join(wd, "hooks%d" % (idx + k))) for x in subs])
+                    child = Child(idx, wd, cache, [], rules, trace, thread_subs=tsubs)
+                    all_children.append(child)
+                    for k in range(nthr):
+                        actors.append(Actor(child, idx + k, k))
+                        thread_actors.append(actors[-1])
+                    chs.append((child, tsubs, cd))
+                    idx += nthr
+                    continue
                 chs.append((Child(idx, wd, cache, subs, rules, trace,
                                   track=any(x.get("worker") == "cf" for x in subs)), subs, cd))
                 all_children.append(chs[-1][0])
+                actors.append(Actor(chs[-1][0], idx))
                 idx += 1
             deadline = time.time() + timeout
             if stage.get("gate"):
@@ -524,7 +622,7 @@ def run_scenario(sc, workroot=None):
                 state = {"cur": None, "left": 0}
 
                 script = [list(x) for x in stage["gate"].get("script", [])]
-                base_idx = chs[0][0].idx
+                base_idx = actors[0].idx
 
                 def choose(parked, cnt, rng=rng, pol=pol, state=state):
                     # scripted prefix: [child position in the stage, number of checkpoints to pass, settle seconds]
@@ -557,11 +655,23 @@ def run_scenario(sc, workroot=None):
                         return state["cur"]
                     return rng.choice(parked)
 
-                Gate(gate_dir, trace, [c for c, _, _ in chs]).drive(choose, deadline)
+                Gate(gate_dir, trace, actors).drive(choose, deadline)
             for c, subs, cd in chs:
                 rc = c.finish(max(1.0, deadline - time.time()))
                 if rc is None:
                     hang = True
+                if c.n_threads:
+                    for k in range(c.n_threads):
+                        tid = c.tids().get("T%d" % k)
+                        synth = -(c.idx + k + 1)          # trace lines of this thread are re-labelled with this pid
+                        thread_pid[(c.pid, tid)] = synth
+                        hl = subs[k][0]["hook_log"]
+                        children[synth] = dict(idx=c.idx + k, subs=subs[k], inject=None, crashed=False, rc=rc,
+                                               killed_worker=False, kill_label=None, pids=[synth])
+                        infos.append(dict(idx=c.idx + k, rc=rc, report=c.report(thread=k),
+                                          hooks=open(hl).read().split() if os.path.exists(hl) else [], pid=c.pid,
+                                          tail=(c.output or "")[-400:] if rc != 0 else ""))
+                    continue
                 rep = c.report()
                 hl = subs[0]["hook_log"]
                 hooks = open(hl).read().split() if os.path.exists(hl) else []
@@ -584,13 +694,16 @@ def run_scenario(sc, workroot=None):
             # what a killed process left in the file it had open, looked at before anybody repairs it
             tr_now = resolve_keys(read_trace(trace))
             for c, subs, cd in chs:
-                ch = children[c.pid]
+                ch = children.get(c.pid)
+                if ch is None:
+                    continue
                 if ch["crashed"] or ch["killed_worker"]:
                     for kk in {k for p, _, l, k in tr_now if p in ch["pids"] and k != "-"}:
                         mine = [l for p, _, l, k in tr_now if p in ch["pids"] and k == kk]
                         if mine and mine[-1] in OPEN_LABELS:
                             ch.setdefault("crash_status", {})[kk] = file_status(os.path.join(cache, kk, OPEN_LABELS[mine[-1]]))
         tr = resolve_keys(read_trace(trace))
+        tr = [(thread_pid.get((pid, tid), pid), tid, l, k) for pid, tid, l, k in tr]
         main_keys = [k for pid, _, l, k in tr if l == "job.lock_acquired" and pid in children]
         keys = []
         for k in main_keys:
